@@ -411,6 +411,27 @@ class Scenario:
             # the follower must keep replicating after the install
             for _ in range(12):
                 self.write_one(leader, rnd)
+            # entries that CHANGE what the installed snapshot contains: the oldest keys are removed / rewritten after the install, so the
+            # follower's next start-up has to replay "snapshot, then these entries"
+            with self.lock:
+                oldest = [k for k, v in self.keys.items() if v is not None][:5]
+            for j, key in enumerate(oldest):
+                tenant, data_id = key
+                try:
+                    if j < 3:
+                        r = leader.delete("/nacos/v1/cs/configs", params={"dataId": data_id, "group": GROUP, "tenant": tenant}, timeout=10)
+                        if r.status == 200:
+                            with self.lock:
+                                self.keys[key] = None
+                    else:
+                        val = "%s-after-install-%d" % (self.name, j)
+                        r = leader.post("/nacos/v1/cs/configs", form={"dataId": data_id, "group": GROUP, "tenant": tenant, "content": val}, timeout=10)
+                        if r.status == 200:
+                            with self.lock:
+                                self.keys[key] = val
+                except HTTP_ERR:
+                    pass
+            self.step("changed-snapshot-contents-after-install", removed=[list(k) for k in oldest[:3]], rewritten=[list(k) for k in oldest[3:5]])
             if self.leader() is not leader:
                 self.step("leader-changed", now=getattr(self.leader(), "id", None))
                 leader = self.leader() or leader
